@@ -87,6 +87,11 @@ def _map_query_error(error: duckdb.Error, sql_query: str) -> Exception:
             "2-1-19-19", value1=parts[0].strip(), op="comparison", value2=parts[1].strip()
         )
 
+    # VTL macro: period indicator not expressible in the SDMX Gregorian representation
+    # (cast of a Time_Period to String under that output format)
+    if "vtl error 2-1-19-21" in msg_lower:
+        return RunTimeError("2-1-19-21", period=msg.rsplit("got ", 1)[-1].strip()[:1])
+
     # daytoyear / daytomonth: negative input value (check before 2-1-19-1 prefix match)
     if "vtl error 2-1-19-16" in msg_lower:
         op = "daytoyear" if "daytoyear" in msg_lower else "daytomonth"
